@@ -6,6 +6,7 @@ import (
 	"fmt"
 	"strings"
 	"sync"
+	"sync/atomic"
 	"time"
 
 	"github.com/openbao/openbao/sdk/v2/framework"
@@ -28,6 +29,7 @@ import (
 //	  data/<p>     authenticated storage path
 
 type RecEvent struct {
+	Evt     int64 // global event sequence (shared with the audit hub when set)
 	Step    int
 	Kind    string // handler | exist | revoke | renew | login
 	Mount   string // mount uuid / name given at factory time
@@ -49,6 +51,7 @@ type Recorder struct {
 	Issued      map[string]bool // secret ids handed to the core
 	Revoked     map[string]int  // successful revokes per secret id
 	GateHandler bool            // park on handler entry (scheduling point)
+	EvtCounter  *atomic.Int64   // optional shared event counter
 	n           int
 }
 
@@ -61,6 +64,9 @@ func (r *Recorder) add(e RecEvent) {
 	defer r.mu.Unlock()
 	if r.sim != nil {
 		e.Step = r.sim.Steps
+	}
+	if r.EvtCounter != nil {
+		e.Evt = r.EvtCounter.Add(1)
 	}
 	r.Events = append(r.Events, e)
 }
